@@ -140,9 +140,6 @@ let handle = function
   | ["scoped"; h] -> res (scoped_decode (bytes_of_hex h)) (fun s -> "OK " ^ render_scoped s)
   | ["oid_parse"; h] -> res (oid_of_text (bytes_of_hex h)) (fun o -> "OK " ^ hx o)
   | ["oid_print"; h] -> res (text_of_oid (bytes_of_hex h)) (fun s -> "OK " ^ hx s)
-  | ["is_after"; x; y] ->
-    let x = bytes_of_hex x and y = bytes_of_hex y in "OK " ^ b01 (is_after x y) ^ " " ^ b01 (starts_with x y)
-  | ["relnorm"; r; o] -> res (try_normalize (bytes_of_hex r) (bytes_of_hex o)) (fun o -> "OK " ^ hx o)
   | ["enc_int"; v] -> res (push_int empty_buffer (z_of_string v)) (fun b -> "OK " ^ hx b.data)
   | ["enc_oid"; h] -> res (push_oid empty_buffer (bytes_of_hex h)) (fun b -> "OK " ^ hx b.data)
   | ["buf"; spec] -> buf_line spec
@@ -191,5 +188,13 @@ let handle = function
                    outcome o (fun l -> "[" ^ String.concat "," (List.map (function None -> "none" | Some t -> render_tuple t) l) ^ "]")
                  | _ -> failwith "bad walk kind") in
              s ^ " next=" ^ hx !it.next_oid ^ " mr=" ^ sz !it.max_repetitions) pdus))
+  | "recvloop" :: ver :: comm :: rid :: ds ->
+    (* the community receive loop on the datagrams that arrive, in order *)
+    let v = if ver = "1" then sNMP_V1 else sNMP_V2C in
+    (match c_recv_loop v (bytes_of_hex comm) (z_of_string rid) (List.map bytes_of_hex ds) with
+     | Delivered (p, rest) -> "DELIVER " ^ render_pdu p ^ " left=" ^ string_of_int (List.length rest)
+     | Failed (e, rest) -> "FAIL " ^ exc_name e ^ " left=" ^ string_of_int (List.length rest)
+     | Crashed -> "PANIC"
+     | TimedOut -> "TIMEOUT")
   | _ -> "DRIVER-ERROR unknown command"
 let () = main_loop handle
